@@ -3,7 +3,7 @@ CONSTANTS
   OpFacts <- AllFacts
   Sizes <- SizesSmall
   ConstGas <- Const2
-  OtherGas <- Other2
+  OtherGas <- Other1
   Gives <- Gives2
   GasLimit = 6000
   MaxOps = 3
